@@ -79,7 +79,7 @@ def execute(profile, seed=None, cfg=None, events=None, tier="quick", time_limit=
   # does not terminate exhausts) and a much larger wall-clock backstop.
   old = signal.signal(signal.SIGALRM, _alarm)
   old_prof = signal.signal(signal.SIGPROF, _cpu_alarm)
-  signal.alarm(int(time_limit) * 6)
+  signal.alarm(int(time_limit) * 10)
   signal.setitimer(signal.ITIMER_PROF, float(time_limit))
   sim = None
   try:
@@ -265,7 +265,7 @@ def run_batch(profile, verif_seed, n_runs, tier, workers=None, wall_budget=None,
     while inflight:
       fut = inflight.pop(0)
       try:
-        results.extend(fut.result(timeout=time_limit * 10 + 60))
+        results.extend(fut.result(timeout=time_limit * 12 + 60))
       except Exception as e:     # pylint: disable=broad-except
         results.append({"run_index": -1, "harness_error": "worker failed: %r" % (e,),
                         "violation": None, "counters": {}, "shapes": [], "nontrivial": 0,
